@@ -234,7 +234,7 @@ const std::vector<size_t> ezc3d::ParametersNS::GroupNS::Parameter::dimension() c
 
 bool ezc3d::ParametersNS::GroupNS::Parameter::isDimensionConsistent(size_t dataSize, const std::vector<size_t> &dimension) const {
     if (dataSize == 0){
-        int dim(1);
+        size_t dim(1);
         for (unsigned int i=0; i<dimension.size(); ++i)
             dim *= dimension[i];
         if (dimension.size() == 0 || dim == 0)
